@@ -12,10 +12,12 @@ code -> spec: seeded random lists (comments, blank lines, CRLF, irregular spacin
               non-ASCII comments) with random suggestion tables.
 Observations (entries, build().text and its entries, expand().text or PackageListError, with_keywords().raw) are
 judged by PkgList_Trace: RoundTrip, Parse_LineCount, Parse_Fields, Build_Parse, Build_Text, Expand_Untouched,
-Expand_Preserve, Expand_Keywords, Expand_Spacing, Expand_LineCount, Expand_Refusal, Expand_SpuriousRefusal.
+Expand_Preserve, Expand_Keywords, Expand_Spacing, Expand_LineCount, Expand_Refusal, Expand_SpuriousRefusal, and
+Parse_Raised / Build_Raised / Expand_Raised / WithKw_Raised when a call on an input of the domain ends in any other exception.
 
-Carve-outs: white space other than space/tab and line boundaries other than LF / CR LF (form feed, NEL, U+2028 ...)
-are outside the generated domain (TextInDomain); the separator written between NEW keywords is not judged;
+Blanks are every character str.split() treats as white space inside a line (tab, space, US, NBSP, U+1680, U+2000-200A, U+202F,
+U+205F, U+3000).  Carve-outs: line boundaries other than LF / CR LF (VT, FF, FS, GS, RS, NEL, U+2028/9) are outside the generated
+domain (TextInDomain); the separator written between NEW keywords is not judged;
 when a line ends up without keywords only lead/spec/comment/eol are judged.
 """
 import json
@@ -37,6 +39,8 @@ def txt(c):
 
 
 class Real:
+    """Calls the real code.  An exception of the code under test is an observation (`raised`), judged by the trace spec."""
+
     def __init__(self):
         from pkgcore.bugzilla import pkglist
         from pkgcore.bugzilla.errors import PackageListError
@@ -44,104 +48,121 @@ class Real:
         self.m, self.Err = pkglist, PackageListError
 
     def entries(self, text):
-        try:
-            return self.m.PackageList(text).entries
-        except self.Err as e:
-            raise tlc.MachineryError(f"generator produced an unparsable list {text!r}: {e}") from e
+        return self.m.PackageList(text).entries
 
     def ev_parse(self, tid, text):
-        es = self.entries(text)
-        return dict(tid=tid, i=0, ev="parse", text=cps(text),
-                    entries=[dict(raw=cps(x.raw), eol=cps(x.eol), blank=bool(x.is_blank), kws=[cps(k) for k in x.keywords]) for x in es])
+        ev = dict(tid=tid, i=0, ev="parse", text=cps(text), entries=[], raised="")
+        try:
+            ev["entries"] = [dict(raw=cps(x.raw), eol=cps(x.eol), blank=bool(x.is_blank), kws=[cps(k) for k in x.keywords])
+                             for x in self.entries(text)]
+        except Exception as e:
+            ev["raised"] = type(e).__name__
+        return ev
 
     def ev_build(self, tid, entries):
         """entries: [(str(atom), [kw..])]"""
-        atoms = [(self._atom(p), k) for p, k in entries]
-        built = self.m.PackageList.build(atoms)
-        parsed = [x for x in self.entries(built.text) if x.pkg is not None]
-        return dict(tid=tid, i=0, ev="build", entries=[dict(pkg=cps(str(a)), kws=[cps(x) for x in k]) for a, k in atoms],
-                    text=cps(built.text), parsed=[dict(pkg=cps(str(x.pkg)), kws=[cps(k) for k in x.keywords]) for x in parsed])
-
-    def _atom(self, s):
         from pkgcore.ebuild.atom import atom
 
-        return atom(s)
+        atoms = [(atom(p), k) for p, k in entries]
+        ev = dict(tid=tid, i=0, ev="build", entries=[dict(pkg=cps(str(a)), kws=[cps(x) for x in k]) for a, k in atoms],
+                  text=[], parsed=[], raised="")
+        try:
+            built = self.m.PackageList.build(atoms)
+            ev["text"] = cps(built.text)
+            ev["parsed"] = [dict(pkg=cps(str(x.pkg)), kws=[cps(k) for k in x.keywords]) for x in self.entries(built.text) if x.pkg is not None]
+        except Exception as e:
+            ev["raised"] = type(e).__name__
+        return ev
 
     def ev_expand(self, tid, text, sg):
         """sg: [(spec token as written, [kw..])]"""
-        table = {}
-        for spec, kws in sg:
-            table[str(self.m.parse_atom(spec))] = list(kws)
-        pl = self.m.PackageList(text)
-        self.entries(text)
         ev = dict(tid=tid, i=0, ev="expand", text=cps(text), sg=[dict(spec=cps(s), kws=[cps(k) for k in ks]) for s, ks in sg],
-                  refused=False, out=[])
+                  refused=False, out=[], raised="")
         try:
-            ev["out"] = cps(pl.expand(lambda pkg: table.get(str(pkg), ())).text)
-        except self.Err:
-            ev["refused"] = True
+            table = {str(self.m.parse_atom(spec)): list(kws) for spec, kws in sg}
+            pl = self.m.PackageList(text)
+            pl.entries  # a list that does not parse is not a refusal of expand()
+            try:
+                ev["out"] = cps(pl.expand(lambda pkg: table.get(str(pkg), ())).text)
+            except self.Err:
+                ev["refused"] = True
+        except Exception as e:
+            ev["raised"] = type(e).__name__
         return ev
 
     def ev_withkw(self, tid, line, kws):
-        es = self.entries(line)
-        out = "" if not es else es[0].with_keywords(kws).raw + es[0].eol
-        return dict(tid=tid, i=0, ev="withkw", text=cps(line), kws=[cps(k) for k in kws], out=cps(out))
+        ev = dict(tid=tid, i=0, ev="withkw", text=cps(line), kws=[cps(k) for k in kws], out=[], raised="")
+        try:
+            es = self.entries(line)
+            ev["out"] = cps("" if not es else es[0].with_keywords(kws).raw + es[0].eol)
+        except Exception as e:
+            ev["raised"] = type(e).__name__
+        return ev
 
 
 # ---------------------------------------------------------------- random lists
-SPECS = ["dev-libs/foo-1.2.3", "=dev-libs/foo-1.2.3", "app-misc/bar", "=app-misc/bar-2_p1-r3", ">=sys-apps/baz-4", "sys-apps/baz:2",
-         "~x11-libs/q+t-5.15", "dev-lang/c++-11.2"]
+# spelling -> the atom it names (two spellings of one atom share their suggestion)
+SPECS = {"dev-libs/foo-1.2.3": "foo", "=dev-libs/foo-1.2.3": "foo", "app-misc/bar": "bar", "=app-misc/bar-2_p1-r3": "bar2",
+         ">=sys-apps/baz-4": "baz>=", "sys-apps/baz:2": "baz:2", "~x11-libs/q+t-5.15": "qt", "dev-lang/c++-11.2": "c++"}
 KWS = ["amd64", "~x86", "arm64", "*", "^", "-", "~*", "ppc#64", "amd64-linux", "*"]
-BLANKS = [" ", "  ", "\t", " \t ", "   "]
-COMMENTS = ["#", "# why", "#no-space", "# é ü #x", "## a  b "]
+# every character str.split() treats as white space inside a line: tab, US, space, NBSP, OGHAM SPACE MARK, EN QUAD .. HAIR SPACE,
+# NARROW NBSP, MEDIUM MATHEMATICAL SPACE, IDEOGRAPHIC SPACE (the line boundaries VT FF FS GS RS NEL LS PS are outside the domain)
+UNI_BLANKS = ["\t", "\x1f", " ", "\xa0", "\u1680"] + [chr(c) for c in range(0x2000, 0x200B)] + ["\u202f", "\u205f", "\u3000"]
+assert all(c.isspace() and len((c + "x").splitlines()) == 1 for c in UNI_BLANKS)
+COMMENTS = ["#", "# why", "#no-space", "# é ü #x", "## a  b ", "#\xa0nbsp\u3000"]
 
 
-def rnd_line(r):
+def rnd_blank(r, plain):
+    """A non-empty run of blanks; `plain`: only space / tab (most lists), else any Unicode blank."""
+    if plain:
+        return r.choice([" ", "  ", "\t", " \t ", "   "])
+    return "".join(r.choice(UNI_BLANKS) for _ in range(r.choice([1, 1, 1, 2, 3])))
+
+
+def rnd_line(r, plain=True):
+    """-> (text, spec spelling or None, keywords as written)"""
     x = r.random()
     if x < 0.12:
-        return r.choice(["", " ", "\t", "  \t"])
+        return r.choice(["", rnd_blank(r, plain), rnd_blank(r, plain)]), None, []
     if x < 0.25:
-        return r.choice(["", " ", "\t "]) + r.choice(COMMENTS)
-    lead = r.choice(["", "", "", " ", "\t", "    "])
-    spec = r.choice(SPECS)
-    n = r.choice([0, 1, 1, 1, 2, 2, 3])
+        return r.choice(["", rnd_blank(r, plain)]) + r.choice(COMMENTS), None, []
+    lead = r.choice(["", "", "", rnd_blank(r, plain)])
+    spec = r.choice(list(SPECS))
+    kws = [r.choice(KWS) for _ in range(r.choice([0, 1, 1, 1, 2, 2, 3]))]
     body = lead + spec
-    for _ in range(n):
-        body += r.choice(BLANKS) + r.choice(KWS)
+    for k in kws:
+        body += rnd_blank(r, plain) + k
     y = r.random()
     if y < 0.3:
-        body += r.choice(BLANKS) + r.choice(COMMENTS)
+        body += rnd_blank(r, plain) + r.choice(COMMENTS)
     elif y < 0.5:
-        body += r.choice(BLANKS)
-    return body
+        body += rnd_blank(r, plain)
+    return body, spec, kws
 
 
 def rnd_list(r):
+    """-> (text, spec spellings used)"""
     n = r.choice([0, 1, 1, 2, 2, 3, 4, 6])
     mode = r.choice(["lf", "lf", "crlf", "mixed"])
-    out = ""
+    plain = r.random() < 0.5
+    out, specs = "", []
     for i in range(n):
-        line = rnd_line(r)
+        line, spec, _ = rnd_line(r, plain)
         eol = {"lf": "\n", "crlf": "\r\n", "mixed": r.choice(["\n", "\r\n"])}[mode]
         if i == n - 1 and r.random() < 0.4 and line:
             eol = ""
         out += line + eol
-    return out
+        if spec and spec not in specs:
+            specs.append(spec)
+    return out, specs
 
 
-def rnd_sugg(r, real, text):
+def rnd_sugg(r, specs):
     """One suggestion per distinct atom, listed under every spelling used in the text."""
-    by_atom, sg = {}, []
-    for x in real.entries(text):
-        if x.pkg is None:
-            continue
-        tok = x.raw.split()[0]  # the spec as written
-        key = str(x.pkg)
-        if key not in by_atom:
-            by_atom[key] = r.choice([[], [], ["amd64"], ["amd64", "~x86"], ["arm64", "amd64", "ppc64"], ["~arm"]])
-        if all(s != tok for s, _ in sg):
-            sg.append((tok, by_atom[key]))
-    return sg
+    by_atom = {}
+    for s in specs:
+        by_atom.setdefault(SPECS[s], r.choice([[], [], ["amd64"], ["amd64", "~x86"], ["arm64", "amd64", "ppc64"], ["~arm"]]))
+    return [(s, by_atom[SPECS[s]]) for s in specs]
 
 
 # ---------------------------------------------------------------- run
@@ -151,7 +172,7 @@ def mc_cfg(maxlines, kw, nsugg):
 
 
 def describe(e):
-    d = dict(ev=e["ev"])
+    d = dict(ev=e["ev"], raised=e.get("raised", ""))
     if "text" in e:
         d["text"] = txt(e["text"])
     if e["ev"] == "expand":
@@ -195,7 +216,7 @@ def run(ck):
     ck.rule = ("expand: distinct (text, suggestions) in which at least one line holds a * or ^ sentinel; parse/build/with_keywords: "
                "distinct input with at least one package line")
     ck.assumptions = [
-        "blanks are space and tab, line endings LF or CR LF (other Unicode white space / line boundaries are outside the domain)",
+        "blanks are every in-line Unicode white space str.split() honours; line endings LF or CR LF (other line boundaries are outside the domain)",
         "* means the suggested keywords (or - when there are none), ^ the resolved keywords of the package line above",
         "the suggestion callback is a pure table keyed by the atom",
     ]
@@ -208,7 +229,7 @@ def run(ck):
     # 1. the design
     # (VERIF_DEV_SKIP_MC: development shortcut while trying code mutations; the design runs do not depend on the code)
     if not os.environ.get("VERIF_DEV_SKIP_MC"):
-        ck.laws("PkgList_Laws", cfg_text=f"CONSTANT N = {ck.pick(5, 7)}\n", label=f"Laws:PkgList_Laws N={ck.pick(5, 7)}", timeout=900,
+        ck.laws("PkgList_Laws", cfg_text=f"CONSTANT N = {ck.pick(5, 6)}\n", label=f"Laws:PkgList_Laws N={ck.pick(5, 6)}", timeout=900,
                 workers=1)
         ml, kw, ns = ck.pick((2, "QuickKw", 1), (2, "FullKw", 2))
         ck.mc("PkgList_MC", cfg_text=mc_cfg(ml, kw, ns), workers=ck.pick(4, 8), timeout=ck.pick(300, 2400),
@@ -252,18 +273,18 @@ def run(ck):
     r = rng(38)
     events = []
     for _ in range(ck.pick(1200, 12000)):
-        text = rnd_list(r)
-        sg = rnd_sugg(r, real, text)
+        text, specs = rnd_list(r)
+        sg = rnd_sugg(r, specs)
         add(real.ev_expand(len(events), text, sg), ("expand", text, repr(sg)), "*" in text or "^" in text)
         if r.random() < 0.5:
             add(real.ev_parse(len(events), text), ("parse", text), bool(text.strip()))
         if r.random() < 0.3:
-            line = rnd_line(r) + r.choice(["", "\n", "\r\n"])
+            body, spec, own = rnd_line(r, r.random() < 0.5)
+            line = body + r.choice(["", "\n", "\r\n"])
             kws = r.choice([[], ["amd64"], ["~x86", "arm64"], ["-"], ["a#b"]])
             if line:
-                es = real.entries(line)
-                if es and es[0].pkg is not None and r.random() < 0.3:
-                    kws = list(es[0].keywords)  # same keywords: with_keywords still rewrites the keyword region
+                if spec and r.random() < 0.3:
+                    kws = list(own)  # same keywords: with_keywords still rewrites the keyword region
                 add(real.ev_withkw(len(events), line, kws), ("withkw", line, tuple(kws)), bool(line.split("#")[0].strip()))
         if r.random() < 0.15:
             ents = [(r.choice(["=dev-libs/foo-1.2.3", "app-misc/bar", ">=sys-apps/baz-4:2", "~x11-libs/q+t-5.15", "<dev-lang/c++-11.2"]),
